@@ -63,7 +63,16 @@ def main():
         else:
             got = sorted(l.replace('http://h.example', '') if l.startswith('http://h.example/') else l for l in linked)
             if got != expect_linked: bad.append({'meta': meta, 'links': [e.tag for e in links], 'problem': 'no nofollow in force (robots=%r, meta=%r) but linked URLs are %r, expected %r' % (robots, meta, got, expect_linked)})
-    doc = {'label': 'bounded', 'functions': ['wpull/scraper/html.py:HTMLScraper.scrape', 'wpull/scraper/html.py:HTMLScraper._process_elements', 'wpull/scraper/html.py:ElementWalker.robots_cannot_follow'],
+    # the pool's verdicts over HISTORIES of questions (query-dependent rules, several origins and agents, rules replaced): the scenarios of replay/robots.py, run on
+    # every check and not only when the engine cannot follow the pool's code
+    try:
+        from replay.robots import replay_agent
+        failed, detail = replay_agent({})
+        n += 80; nontrivial += 72
+        if failed: bad.append({'meta': None, 'problem': 'robots pool: ' + str(detail)})
+    except Exception as e:
+        bad.append({'meta': None, 'problem': 'robots pool scenarios raised %s: %s' % (type(e).__name__, e)})
+    doc = {'label': 'bounded', 'functions': ['wpull/robotstxt.py:RobotsTxtPool.can_fetch (histories)', 'wpull/scraper/html.py:HTMLScraper.scrape', 'wpull/scraper/html.py:HTMLScraper._process_elements', 'wpull/scraper/html.py:ElementWalker.robots_cannot_follow'],
            'cases': n, 'distinct_nontrivial': nontrivial, 'bound': '%d meta spellings x %d link layouts x robots on/off x meta before/after the links; stub tokenizer yielding real Element tuples' % (len(METAS), len(LINKS)),
            'rule': 'a case is one scrape of one synthetic page', 'result': 'no violation' if not bad else '%d violations' % len(bad), 'violations': bad[:40], 'known_findings': [],
            'samples': [{'meta': METAS[2][0], 'links': ['a', 'a']}], 'wall_s': round(time.time() - t0, 1)}
